@@ -127,9 +127,13 @@ def gen_case(rng, tier, index):
                                 {"raw": ".cfi_adjust_cfa_offset -8",
                                  "cfi": [".cfi_adjust_cfa_offset", [-8]]}]
             else:
+                # sometimes a label stands between the two directives (the
+                # assembler then starts a new, still empty, block there)
+                mid = [{"l": f"pt{case['edits'].index(e)}_c"}] \
+                    if rng.random() < 0.4 else []
                 p["lines"] = [body[0],
                               {"raw": ".cfi_remember_state",
-                               "cfi": [".cfi_remember_state", []]},
+                               "cfi": [".cfi_remember_state", []]}] + mid + [
                               {"raw": ".cfi_undefined 13",
                                "cfi": [".cfi_undefined", [13]]}] + \
                     body[1:] + [{"k": "nop"},
